@@ -17,7 +17,7 @@
  * 3. TRACE mode (C09): IO_SHIM_TRACK=<path> IO_SHIM_LOG=<file> [IO_SHIM_SNAPDIR=<dir>].  Every
  *    open/ftruncate/mmap/munmap/msync/lseek/write/pwrite/fsync/close that concerns <path> is logged, one
  *    line per call, and (with SNAPDIR) the content of the file as the page cache holds it *before* the call
- *    is copied to <dir>/<index>.img.
+ *    is copied to <dir>/<index>.img.  IO_SHIM_SAMPLE_US=<n> adds a snapshot every n microseconds ("sample" lines).
  *
  * 4. FAIL mode (debugging aid, process-wide counting unlike strace's per-thread counting):
  *    IO_SHIM_FAIL=<call>:<k>:<errno> makes the k-th call of that kind (read, write, pread, pwrite, ftruncate,
@@ -37,7 +37,9 @@
 #include <string.h>
 #include <unistd.h>
 #include <sys/mman.h>
+#include <signal.h>
 #include <sys/stat.h>
+#include <sys/time.h>
 #include <sys/syscall.h>
 #include <sys/types.h>
 
@@ -105,6 +107,8 @@ static int log_fd = -1, track_fd = -1, trace_idx;
 static struct { char *addr; size_t len; off_t off; } maps[64];
 static int nmaps;
 
+static void on_alarm(int sig);
+
 static void init(void) {
   static int done;
   if (done) return;
@@ -144,6 +148,18 @@ static void init(void) {
   snap_dir = getenv("IO_SHIM_SNAPDIR");
   const char *lp = getenv("IO_SHIM_LOG");
   if (track_path && lp) log_fd = real_open(lp, O_WRONLY | O_CREAT | O_TRUNC | O_CLOEXEC, 0644);
+  const char *us = getenv("IO_SHIM_SAMPLE_US");
+  if (log_fd >= 0 && us && atol(us) > 0) {
+    struct sigaction sa;
+    memset(&sa, 0, sizeof sa);
+    sa.sa_handler = on_alarm;
+    sa.sa_flags = SA_RESTART;
+    sigaction(SIGALRM, &sa, NULL);
+    struct itimerval it;
+    it.it_interval.tv_sec = it.it_value.tv_sec = atol(us) / 1000000;
+    it.it_interval.tv_usec = it.it_value.tv_usec = atol(us) % 1000000;
+    setitimer(ITIMER_REAL, &it, NULL);
+  }
 }
 
 __attribute__((constructor)) static void ctor(void) { init(); }
@@ -232,8 +248,11 @@ static void snapshot(int idx) {
   real_close(out);
 }
 
+static volatile int in_log;
+
 static void logcall(const char *fmt, ...) {
   if (log_fd < 0) return;
+  in_log = 1;
   int idx = trace_idx++;
   snapshot(idx);
   char line[512];
@@ -244,6 +263,16 @@ static void logcall(const char *fmt, ...) {
   va_end(ap);
   line[n++] = '\n';
   real_write(log_fd, line, (size_t)n);
+  in_log = 0;
+}
+
+/* IO_SHIM_SAMPLE_US=<n>: additionally snapshot the tracked file every n microseconds (instants between system calls:
+   stores through the mapping are visible to nobody else) */
+static void on_alarm(int sig) {
+  (void)sig;
+  int saved = errno;
+  if (!in_log && track_fd >= 0) logcall("sample");
+  errno = saved;
 }
 
 static int is_tracked_path(const char *p) { return track_path && p && !strcmp(p, track_path); }
